@@ -96,21 +96,52 @@ Section Reset.
   Qed.
 
   (* only the node itself and its descendants are touched *)
+  Lemma fold_desc f n m :
+    (forall n c m, reset f n c m = c m \/ m = n \/ anc n m) ->
+    forall l c1, (forall ch, In ch l -> In ch (succs n)) ->
+      fold_left (rstep f) l c1 m = c1 m \/ anc n m.
+  Proof.
+    intros IH. induction l as [|ch l IHl]; intros c1 S; cbn [fold_left]; [left; reflexivity|].
+    destruct (IHl (rstep f c1 ch) ltac:(intros; apply S; right; auto)) as [E|A]; auto.
+    rewrite E. assert (Sch: In ch (succs n)) by (apply S; left; auto).
+    apply succs_spec in Sch. destruct Sch as (LN & Bch & Dn).
+    unfold rstep. destruct (is_none (c1 ch)); auto.
+    destruct (IH ch c1 m) as [E1|[->|A]]; auto.
+    - right. now constructor.
+    - right. eapply anc_step; eauto.
+  Qed.
+
   Lemma reset_desc : forall f n c m, reset f n c m = c m \/ m = n \/ anc n m.
   Proof.
     induction f as [|f IH]; intros n c m; [left; reflexivity|]. rewrite reset_unfold.
     destruct (is_none (c n)); [left; reflexivity|].
-    assert (G: forall l c1, (forall ch, In ch l -> In ch (succs n)) ->
-                 fold_left (rstep f) l c1 m = c1 m \/ anc n m).
-    { induction l as [|ch l IHl]; intros c1 S; cbn [fold_left]; [left; reflexivity|].
-      destruct (IHl (rstep f c1 ch) ltac:(intros; apply S; right; auto)) as [E|A]; auto.
-      rewrite E. assert (Sch: In ch (succs n)) by (apply S; left; auto).
-      apply succs_spec in Sch. destruct Sch as (LN & Bch & Dn).
-      unfold rstep. destruct (is_none (c1 ch)); auto.
-      destruct (IH ch c1 m) as [E1|[->|A]]; auto.
-      - right. now constructor.
-      - right. eapply anc_step; eauto. }
-    destruct (G (succs n) (upd c n VNone) ltac:(auto)) as [E|A]; auto.
+    destruct (fold_desc f n m IH (succs n) (upd c n VNone) ltac:(auto)) as [E|A]; auto.
+    rewrite E. destruct (Nat.eq_dec m n) as [->|NE]; auto. left. now apply upd_other.
+  Qed.
+
+  (* ---- _reset(cell, force=True): the written cell is emptied whatever it holds *)
+  Lemma forced_unfold n c :
+    reset_forced W b n c = fold_left (rstep N) (succs n) (upd c n VNone).
+  Proof. reflexivity. Qed.
+
+  Lemma forced_props n c : n < N ->
+    mono c (reset_forced W b n c) /\ (reset_forced W b n c) n = VNone /\
+    (forall m, c m <> VNone -> (reset_forced W b n c) m = VNone -> m <> n ->
+               closed_at (reset_forced W b n c) m) /\
+    (forall ch, In ch (succs n) -> (reset_forced W b n c) ch = VNone).
+  Proof.
+    intros L. rewrite forced_unfold. set (c0 := upd c n VNone).
+    assert (M0: mono c c0). { intros m. unfold c0, upd. destruct (Nat.eqb m n); auto. }
+    destruct (fold_props N n c (reset_props N) ltac:(lia) (succs n) c0 ltac:(auto) M0
+                         ltac:(unfold c0; apply upd_same)) as (A&B&C&D&_).
+    { intros m A B C. unfold c0 in B. rewrite upd_other in B by auto. congruence. }
+    repeat split; auto.
+  Qed.
+
+  Lemma forced_desc n c m : reset_forced W b n c m = c m \/ m = n \/ anc n m.
+  Proof.
+    rewrite forced_unfold.
+    destruct (fold_desc N n m (reset_desc N) (succs n) (upd c n VNone) ltac:(auto)) as [E|A]; auto.
     rewrite E. destruct (Nat.eq_dec m n) as [->|NE]; auto. left. now apply upd_other.
   Qed.
 
@@ -126,6 +157,18 @@ Section Reset.
     - apply is_none_false in E. apply (V p E Hp Hp d Hd).
   Qed.
 
+  Lemma forced_closed n c : n < N -> Closed c ->
+    Closed (reset_forced W b n c) /\ closed_at (reset_forced W b n c) n.
+  Proof.
+    intros L K. destruct (forced_props n c L) as (M&Nn&V&D). split.
+    - intros p Lp Ip Hp d Hd. destruct (is_none (c p)) eqn:E.
+      + apply is_none_true in E. apply (mono_none c _ d M). apply (K p Lp Ip E d Hd).
+      + apply is_none_false in E. destruct (Nat.eq_dec p n) as [->|NE].
+        * apply D; auto.
+        * apply (V p E Hp NE Hp d Hd).
+    - intros _ d Hd. apply D; auto.
+  Qed.
+
   Lemma closed_desc c x :
     (forall n d, b n = true -> In d (deps n) -> b d = true) ->
     Closed c -> closed_at c x -> c x = VNone ->
@@ -135,7 +178,8 @@ Section Reset.
     inversion A as [a n' H|a y n' A' H]; subst.
     - apply (Kx Hx). apply succs_spec; auto.
     - pose proof (deps_lt W WF _ _ Ln H) as Lb.
-      assert (Hy: c y = VNone) by (apply IH; eauto; lia).
-      apply (K y ltac:(lia) (anc_noninput W WF _ _ ltac:(lia) A') Hy). apply succs_spec; auto.
+      assert (Hy: c y = VNone) by (apply IH; [lia|lia|eapply BD; eauto|auto]).
+      assert (Ly: y < wb_n W) by lia.
+      apply (K y Ly (anc_noninput W WF x y Ly A') Hy). apply succs_spec; auto.
   Qed.
 End Reset.
